@@ -217,7 +217,7 @@ func genScript(s *simrt.Sim, maxOps int) []opKind {
 }
 
 func genScenario(s *simrt.Sim, maxTasks, maxOps int) []*lifetime {
-	n := 2 + s.Choose(3)
+	n := 2 + s.Choose(simrt.Bound(3, 5))
 	var ls []*lifetime
 	for i := 0; i < n; i++ {
 		l := &lifetime{interval: simrt.Knob[uint64](s, 1, 2, 3, 5, 8)}
